@@ -134,6 +134,11 @@ class Unit:
                 out += ' let %s = w__[%d];' % (n, k)
             return out
         text = re.sub(r'let \[((?:\s*\w+\s*,?)+)\] = ([^;]+);', destr, text)
+        # R17 (built in, use sites): X_RANGE.start / X_RANGE.end
+        def rng(mt):
+            self.rewrite_counts['R17'] = self.rewrite_counts.get('R17', 0) + 1
+            return '%s_%s' % (mt.group(1), mt.group(2).upper())
+        text = re.sub(r'\b(\w+_RANGE)\.(start|end)\b', rng, text)
         # R11 (built in): fold `<lit>_<uN>.pow(<lit>)` integer-literal powers to a literal
         def fold(mt):
             self.rewrite_counts['R11'] = self.rewrite_counts.get('R11', 0) + 1
@@ -217,6 +222,14 @@ class Unit:
         file, path, it = self.get_item(spec)
         label = self.label_of(path)
         text = it.text
+        mr = re.match(r'(?s)\s*pub const (\w+): Range<usize> =\s*(?:range|create_range)\((.*),\s*(.*?)\);\s*$', text) if it.kind == 'const' else None
+        if mr:
+            # R17: `const X: Range<usize> = range(a, n)` -> `const X_START = a; const X_END = a + n;`
+            self.rewrite_counts['R17'] = self.rewrite_counts.get('R17', 0) + 1
+            a_, n_ = self.apply_rewrites(mr.group(2).strip()), self.apply_rewrites(mr.group(3).strip())
+            self.out.add_repo('pub const %s_START: usize = %s; pub const %s_END: usize = %s + %s;' % (mr.group(1), a_, mr.group(1), a_, n_), file, label, it.line)
+            self.items.append({'label': label, 'file': file, 'kind': it.kind, 'sha': hashlib.sha256(text.encode()).hexdigest()[:16], 'contracted': False})
+            return
         sha = hashlib.sha256(text.encode()).hexdigest()[:16]
         text = self.apply_rewrites(text)
         if it.kind in ('struct',) and 'nopub' not in flags:
